@@ -31,14 +31,15 @@ TReset == /\ IsEvent("reset")
           /\ pcfg' = [keys |-> "", icomm |-> ""] /\ pubs' = <<>>
           /\ last' = [a |-> "reset", t |-> "", res |-> ""] /\ hist' = <<>>
 
-ResMatch(o, r) == IF o \in OkClasses THEN r = "ok" ELSE r = o
+\* an acknowledged call carries no error text: the logged class is "ok"
+ResMatch(o, r, cx) == IF o \in AckClassesV(cx) THEN r = "ok" ELSE r = o
 
 \* one call of a receiver: the logged class of the answer and the job state it left
 TCall(name) ==
     \E v, tr, uk, cx \in BOOLEAN :
         LET t == Ev.t
             o == IF t \in CredTx THEN CredOutcomeV(t, Ev.f, v) ELSE RevOutcome(t, Ev.f) IN
-        /\ ResMatch(o, Ev.res)
+        /\ ResMatch(o, Ev.res, cx)
         /\ JobAfterV(o, tr, uk, cx) = Ev.job
         /\ Apply(t, o)
         /\ jobs' = [jobs EXCEPT ![t] = Ev.job]
@@ -47,7 +48,8 @@ TCall(name) ==
         /\ UNCHANGED <<trust, keys, ctxUp, restarts, reprocs, faults, tops, pcfg, pubs, hist>>
 
 TDeliver == IsEvent("deliver") /\ Ev.t \in Tx /\ Running /\ jobs[Ev.t] = "none" /\ TCall("Deliver") /\ UNCHANGED replay
-TRetry == IsEvent("retry") /\ Ev.t \in Tx /\ Running /\ jobs[Ev.t] = "retry" /\ TCall("Retry") /\ UNCHANGED replay
+\* (the retry goroutine of one notifier may run while the start-up replay of the other one is still busy)
+TRetry == IsEvent("retry") /\ Ev.t \in Tx /\ Mode = "recv" /\ Ev.t \notin replay /\ jobs[Ev.t] = "retry" /\ TCall("Retry") /\ UNCHANGED replay
 TReplay == IsEvent("replay") /\ Ev.t \in replay /\ TCall("Replay") /\ replay' = replay \ {Ev.t}
 TRestart == /\ IsEvent("restart") /\ Running
             /\ replay' = {t \in Tx : jobs[t] \in {"retry", "dead"} /\ why[t] # "ctxdenied"}
@@ -56,7 +58,7 @@ TRestart == /\ IsEvent("restart") /\ Running
 TReprocess == /\ IsEvent("reprocess") /\ Ev.t \in Tx /\ Running /\ Delivered(Ev.t)
               /\ \E v \in BOOLEAN :
                     LET o == IF Ev.t \in CredTx THEN CredOutcomeV(Ev.t, FALSE, v) ELSE RevOutcome(Ev.t, FALSE) IN
-                    ResMatch(o, Ev.res) /\ Apply(Ev.t, o) /\ last' = [a |-> "Reprocess", t |-> Ev.t, res |-> o]
+                    ResMatch(o, Ev.res, FALSE) /\ Apply(Ev.t, o) /\ last' = [a |-> "Reprocess", t |-> Ev.t, res |-> o]
               /\ UNCHANGED <<trust, keys, ctxUp, jobs, why, replay, restarts, reprocs, faults, tops, pcfg, pubs, hist>>
 TTrust == /\ (IsEvent("trust") \/ IsEvent("untrust")) /\ Running /\ Ev.i \in Issuers
           /\ trust' = IF Ev.ev = "trust" THEN trust \cup {Ev.i} ELSE trust \ {Ev.i}
